@@ -235,5 +235,7 @@ CONTROLS = [
     Control("origin enters the central coordinate with x scale", "autoarray/geometry/geometry_util.py", in_func("central_scaled_coordinate_2d_from", "(origin[1] / pixel_scales[1])", "(origin[1] / pixel_scales[0])"), "C12.covariance"),
     Control("over-sampled grid ignores origin[0]", "autoarray/operators/over_sampling/over_sample_util.py", in_func("grid_2d_slim_over_sampled_via_mask_from", "shape_native=mask_2d.shape, pixel_scales=pixel_scales, origin=origin", "shape_native=mask_2d.shape, pixel_scales=pixel_scales, origin=(0.0, origin[1])"), None),
     Control("simulator drops the image origin again (original defect)", "autoarray/dataset/imaging/simulator.py", in_func("SimulatorImaging.via_image_from", "            pixel_scales=image.pixel_scales,\n            origin=image.origin,\n        )\n\n        image = Array2D(values=image, mask=mask)", "            pixel_scales=image.pixel_scales,\n        )\n\n        image = Array2D(values=image, mask=mask)"), "C12.forward"),
+    Control("twin: subtracted origin with reordered terms", _G, in_func("Grid2D.subtracted_from", "origin=(self.origin[0] - offset[0], self.origin[1] - offset[1]),", "origin=(-offset[0] + self.origin[0], -offset[1] + self.origin[1]),"), None, twin=True),
+    Control("twin: padded grid keyword order swapped", _G, in_func("Grid2D.padded_grid_from", "            pixel_scales=self.mask.pixel_scales,\n            origin=self.mask.origin,\n", "            origin=self.mask.origin,\n            pixel_scales=self.mask.pixel_scales,\n"), None, twin=True),
     Control("border relocator sub-grid at origin 0", "autoarray/inversion/pixelization/border_relocator.py", in_func("BorderRelocator.sub_grid", "            origin=self.mask.origin,\n", ""), "C12.forward"),
 ]
